@@ -711,6 +711,9 @@ func runOps(e *runEnv, t *tracker, ops []COp, v *verdicts, where string, cls map
 					return true
 				}
 				v.add("C03", "open-failed-clean", "%s: Open after clean Close = %v", where, err)
+				if !t.m.Empty() {
+					v.add("C01", "open-failed-clean", "%s: Open after clean Close = %v with acknowledged entries [%d,%d]", where, err, t.m.First, t.m.Last)
+				}
 				return false
 			}
 			if !e.fs.Crashed() {
@@ -751,6 +754,9 @@ func usability(e *runEnv, t *tracker, v *verdicts, where string) {
 	e.fs = e.fs.PowerLoss(simfs.Tear{Mode: "none"})
 	if err := e.open(); err != nil {
 		v.add("C03", "open-failed-after-usability", "%s: Open after usability script + power loss = %v", where, err)
+		if !t.m.Empty() {
+			v.add("C01", "open-failed-after-usability", "%s: Open after usability script + power loss = %v with acknowledged entries [%d,%d]", where, err, t.m.First, t.m.Last)
+		}
 		return
 	}
 	if !t.judgeRecovery(e.w, e.fs, v, where+" after usability+power loss") {
